@@ -636,15 +636,39 @@ Proof.
   destruct (a <? 2 * b) eqn:E; [apply N.ltb_lt in E; apply N.ltb_lt | apply N.ltb_ge in E; apply N.ltb_ge]; lia.
 Qed.
 
-Lemma suppress_iff mine tm theirs tt :
-  suppressed_by_answer mine tm theirs tt = true <-> matches mine theirs = true /\ tm < 2 * tt.
+(* the identity test of suppressed_by_answer is the property's same_record *)
+Lemma suppress_identity mine theirs :
+  (if Bool.eqb (i_flush theirs) (i_flush mine) then matches mine theirs
+   else matches mine (with_flush theirs (suppress_flush_override (i_flush mine)))) = same_record mine theirs.
 Proof.
-  unfold suppressed_by_answer, suppress_ttl_cond. rewrite half_lt, andb_true_iff, N.ltb_lt. tauto.
+  unfold suppress_flush_override, with_flush, matches, same_record, rrdata_match, entry_eq. simpl.
+  destruct (Bool.eqb (i_flush theirs) (i_flush mine)) eqn:E.
+  - apply Bool.eqb_prop in E. rewrite E, Bool.eqb_reflx.
+    destruct (beq_rdata (i_data mine) (i_data theirs)), (beq (i_name mine) (i_name theirs)),
+      (i_type mine =? i_type theirs), (i_class mine =? i_class theirs), (is_addr_data (i_data mine)),
+      (i_if mine =? i_if theirs); reflexivity.
+  - rewrite Bool.eqb_reflx.
+    destruct (beq_rdata (i_data mine) (i_data theirs)), (beq (i_name mine) (i_name theirs)),
+      (i_type mine =? i_type theirs), (i_class mine =? i_class theirs), (is_addr_data (i_data mine)),
+      (i_if mine =? i_if theirs); reflexivity.
+Qed.
+
+(* the code is the property text: same record and listed TTL above half *)
+Lemma suppress_eq_spec mine tm theirs tt :
+  suppressed_by_answer mine tm theirs tt = suppress_spec mine tm theirs tt.
+Proof.
+  unfold suppressed_by_answer, suppress_spec, suppress_ttl_cond. rewrite suppress_identity, half_lt. reflexivity.
+Qed.
+
+Lemma suppress_iff mine tm theirs tt :
+  suppressed_by_answer mine tm theirs tt = true <-> same_record mine theirs = true /\ tm < 2 * tt.
+Proof.
+  rewrite suppress_eq_spec. unfold suppress_spec. rewrite andb_true_iff, N.ltb_lt. tauto.
 Qed.
 
 (* the boundary in words: above half suppresses, exactly half and below do not *)
 Lemma suppress_boundary mine tm theirs tt :
-  matches mine theirs = true ->
+  same_record mine theirs = true ->
   (2 * tt > tm -> suppressed_by_answer mine tm theirs tt = true) /\
   (2 * tt <= tm -> suppressed_by_answer mine tm theirs tt = false).
 Proof.
@@ -683,7 +707,7 @@ Qed.
 Lemma matches_rrdata a b : matches a b = true -> rrdata_match a b = true.
 Proof. unfold matches. rewrite !andb_true_iff. tauto. Qed.
 
-(* code vs. property text: `matches` additionally compares the cache-flush bit *)
+(* `matches` (used by the cache) additionally compares the cache-flush bit *)
 Lemma matches_same_record a b :
   matches a b = same_record a b && Bool.eqb (i_flush a) (i_flush b).
 Proof.
@@ -693,45 +717,32 @@ Proof.
     (i_if a =? i_if b); reflexivity.
 Qed.
 
-Lemma suppress_agrees_with_spec mine tm theirs tt :
-  i_flush mine = i_flush theirs ->
-  suppressed_by_answer mine tm theirs tt = suppress_spec mine tm theirs tt.
+Lemma same_record_iff a b :
+  same_record a b = true <->
+  i_data a = i_data b /\ i_name a = i_name b /\ i_type a = i_type b /\ i_class a = i_class b /\
+  (is_addr_data (i_data a) = true -> i_if a = i_if b).
 Proof.
-  intros Hf. unfold suppressed_by_answer, suppress_spec, suppress_ttl_cond.
-  rewrite half_lt, matches_same_record, Hf, Bool.eqb_reflx, andb_true_r. reflexivity.
+  unfold same_record.
+  rewrite !andb_true_iff, beq_rdata_eq, beq_eq, !N.eqb_eq.
+  destruct (is_addr_data (i_data a)).
+  - rewrite N.eqb_eq. intuition.
+  - intuition. discriminate.
 Qed.
 
-(* ... and a known answer that differs only in the cache-flush bit never suppresses *)
-Lemma suppress_flush_bit_differs mine tm theirs tt :
-  i_flush mine <> i_flush theirs -> suppressed_by_answer mine tm theirs tt = false.
-Proof.
-  intros Hf. unfold suppressed_by_answer. rewrite matches_same_record.
-  destruct (Bool.eqb (i_flush mine) (i_flush theirs)) eqn:E.
-  - apply Bool.eqb_prop in E. contradiction.
-  - rewrite andb_false_r. reflexivity.
-Qed.
-
-Definition srv_example (flush : bool) : ident :=
-  mkId [105;46] TY_SRV 1 flush (RSrv 0 0 80 [104;46]) 0.
-
-Lemma suppress_flush_refuted :
-  exists mine tm theirs tt,
-    suppress_spec mine tm theirs tt = true /\ suppressed_by_answer mine tm theirs tt = false.
-Proof. exists (srv_example true), 120, (srv_example false), 120. split; vm_compute; reflexivity. Qed.
+Lemma same_record_rrdata a b : same_record a b = true -> rrdata_match a b = true.
+Proof. unfold same_record, rrdata_match. rewrite !andb_true_iff. tauto. Qed.
 
 Lemma chk_C10_rel_sound mine tm theirs tt :
-  i_flush mine = i_flush theirs ->
   chk_C10_rel mine tm theirs tt (matches mine theirs) (rrdata_match mine theirs)
     (suppressed_by_answer mine tm theirs tt) = true.
 Proof.
-  intros Hf. unfold chk_C10_rel. rewrite (suppress_agrees_with_spec _ _ _ _ Hf).
-  rewrite Bool.eqb_reflx. simpl.
+  unfold chk_C10_rel. rewrite suppress_eq_spec, Bool.eqb_reflx. simpl.
   destruct (matches mine theirs) eqn:E; [|reflexivity]. rewrite (matches_rrdata _ _ E). reflexivity.
 Qed.
 
 Lemma suppressed_by_iff mine tm kas :
   suppressed_by mine tm kas = true <->
-  exists k, In k kas /\ matches mine (fst k) = true /\ tm < 2 * snd k.
+  exists k, In k kas /\ same_record mine (fst k) = true /\ tm < 2 * snd k.
 Proof.
   unfold suppressed_by. rewrite existsb_exists. split; intros (k & Hin & H); exists k; split; auto.
   - apply suppress_iff; assumption.
@@ -748,7 +759,7 @@ Proof. reflexivity. Qed.
 
 Lemma add_answer_dropped_iff kas out a :
   snd (add_answer kas out a) = false <->
-  exists k, In k kas /\ matches (o_id a) (fst k) = true /\ o_ttl a < 2 * snd k.
+  exists k, In k kas /\ same_record (o_id a) (fst k) = true /\ o_ttl a < 2 * snd k.
 Proof.
   rewrite <- suppressed_by_iff. unfold add_answer.
   destruct (suppressed_by _ _ _); simpl; split; auto; discriminate.
